@@ -84,27 +84,27 @@ def takeZeros : List Int → Nat → Nat × List Int
   | 0 :: rest, nz => if nz + 1 ≥ 65535 then (nz + 1, rest) else takeZeros rest (nz + 1)
   | l, nz => (nz, l)
 
-/-- the loop of `dyn_comp` (`fuel` ≥ number of samples left) -/
-def dynCompLoop (p : AgParams) (bitSize : Nat) : Nat → List Int → Nat → Nat → List Bits → List Bits
-  | 0, _, _, _, acc => acc
-  | _, [], _, _, acc => acc
-  | fuel + 1, del :: rest, mb, zmode, acc =>
+/-- the loop of `dyn_comp` (`fuel` ≥ number of samples left): the code words one behind the other -/
+def dynCompLoop (p : AgParams) (bitSize : Nat) : Nat → List Int → Nat → Nat → Bits
+  | 0, _, _, _ => []
+  | _, [], _, _ => []
+  | fuel + 1, del :: rest, mb, zmode =>
     let k := min (lg3a (mb / 512)) p.kb
     let m := 2 ^ k - 1
     -- n = (abs (del) << 1) - ((del >> 31) & 1) - zmode, in uint32_t
     let n := u32 ((2 * del.natAbs : Nat) - (if del < 0 then 1 else 0) - (zmode : Int))
-    let acc := dynCode32 bitSize m k n :: acc
     let mb1 := mbNext p.pb n ((n + zmode) % 4294967296) mb
-    if mb1 * 4 % 4294967296 < 512 ∧ rest ≠ [] then
-      let (nz, rest1) := takeZeros rest 0
-      let k := lead mb1 - 24 + (mb1 + 16) / 64
-      let mz := (2 ^ k - 1) &&& p.wb
-      dynCompLoop p bitSize fuel rest1 0 (if nz ≥ 65535 then 0 else 1) (dynCode mz k nz :: acc)
-    else dynCompLoop p bitSize fuel rest mb1 0 acc
+    dynCode32 bitSize m k n ++
+      (if mb1 * 4 % 4294967296 < 512 ∧ rest ≠ [] then
+        let z := takeZeros rest 0
+        let k := lead mb1 - 24 + (mb1 + 16) / 64
+        let mz := (2 ^ k - 1) &&& p.wb
+        dynCode mz k z.1 ++ dynCompLoop p bitSize fuel z.2 0 (if z.1 ≥ 65535 then 0 else 1)
+      else dynCompLoop p bitSize fuel rest mb1 0)
 
 /-- `dyn_comp (params, pc, bitstream, numSamples, bitSize, &outNumBits)` -/
 def dynComp (p : AgParams) (pc : List Int) (bitSize : Nat) : Bits :=
-  (dynCompLoop p bitSize pc.length pc p.mb0 0 []).reverse.flatten
+  dynCompLoop p bitSize pc.length pc p.mb0 0
 
 /-- the standard parameters: MB0 = 10, PB0 = 40 (pbFactor 4), KB0 = 14 -/
 def stdAg : AgParams := setAgParams 10 40 14
